@@ -8,6 +8,8 @@ text, parses them with the real parser and calls detect for every gene carrying 
 """
 from __future__ import annotations
 
+import zlib
+
 from antismash.common.hmm_rule_parser import rule_parser
 from antismash.common.hmm_rule_parser.structures import ProfileHit
 from antismash.common.secmet.test.helpers import DummyCDS
@@ -139,9 +141,17 @@ def build_inputs(layout):
         plist = []
         for prof, score in hs.items():
             plist.append(ProfileHit(name, prof, score, 1e-5))
-            if isinstance(score, int) and score % 10 == 5:
-                # a second, weaker hit of the same profile on the same gene
-                plist.append(ProfileHit(name, prof, score - 4, 1e-3))
+            if isinstance(score, int) and score % 10 == 5 and score > 6:
+                # a second, weaker hit of the same profile on the same gene (dynamic profiles may report several):
+                # it lies on the other side of the minscore thresholds {10, 20, 30} and comes before or after the
+                # stronger one (decided by a checksum of the names, so that a case replays identically)
+                weaker = ProfileHit(name, prof, score - 6, 1e-3)
+                if zlib.crc32(f"{name}/{prof}".encode()) % 2:
+                    plist.append(weaker)
+                else:
+                    plist.insert(len(plist) - 1, weaker)
+                if zlib.crc32(f"{prof}/{name}".encode()) % 3 == 0:
+                    plist.append(ProfileHit(name, prof, 1, 1e-1))       # and a third, negligible one listed last
         results[name] = plist
     return feats, results
 
@@ -198,7 +208,7 @@ def run(ctx):
     install_detect_monitor(ctx)
     try:
         rng = ctx.rng("cases")
-        for _ in ctx.cases(ctx.quota(6000, 500000)):
+        for _ in ctx.cases(ctx.quota(16000, 500000)):
             case = gen_case(rng)
             ctx.guard("harness-or-crash", case, run_case, ctx, case)
     finally:
